@@ -5,7 +5,8 @@ CONSTANTS
   Coords <- Coords13
   DEN = 4
   MaxNum = 4
-  Base <- BaseRat2
+  Base <- TheBase
+  Which = "Rat2"
   Mults <- QMults
   Adds <- QAdds
   Exps <- QExps
